@@ -428,6 +428,10 @@ def _integrate_uses_resize(m):
 
 
 def run(ctx):
+    from . import c02 as _c02
+    from .common import shared as _shared
+
+    _shared(ctx, "C03.c", _c02.rule_d, why="the integral of a stacked series equals the integrals of its members, per time step, only if Image.append / stack keep every slice's data as it is")
     from .common import rule_abs_tolerance
     rule_abs_tolerance(ctx, "C03.g", [f for k in ctx.model.mod(MOD).classes.values() for f in k.methods.values()], "normalised integrals must be equal at every scale of the data")
     if _integrate_uses_resize(ctx.model):
